@@ -820,6 +820,48 @@ fn main() {
             let p_curve: num_bigint::BigUint = <<Parameters as CurveConfig>::BaseField as PrimeField>::MODULUS.into();
             println!("{}", serde_json::json!({"r_frconfig": r_cfg.to_string(), "p_fqconfig": p_cfg.to_string(), "r_curveconfig": r_curve.to_string(), "p_curveconfig": p_curve.to_string(), "p": p.to_string(), "r": r.to_string(), "a": dec(<Parameters as SWCurveConfig>::COEFF_A), "b": dec(<Parameters as SWCurveConfig>::COEFF_B), "gx": dec(g.x), "gy": dec(g.y), "cofactor": cof, "cofactor_inv": cof_inv.to_string()}));
         }
+        Some("zorro-points") => {
+            // group elements with given x coordinates (where they exist) are accepted by every validating path and have order r
+            use ark_bulletproofs::curve::zorro::{Fq, Fr};
+            use ark_ec::{AffineRepr, CurveGroup, Group};
+            use ark_ff::{PrimeField, Zero};
+            use ark_serialize::{CanonicalDeserialize, CanonicalSerialize};
+            use core::str::FromStr;
+            let mut wrong = false;
+            let mut pts: Vec<(String, Zorro)> = vec![("generator".into(), Zorro::generator())];
+            for a in args.iter().skip(2) {
+                let x = Fq::from(num_bigint::BigUint::from_str(a).unwrap());
+                for greatest in [false, true] {
+                    if let Some(p) = Zorro::get_point_from_x_unchecked(x, greatest) {
+                        pts.push((format!("x={} ({})", a, if greatest { "greater y" } else { "smaller y" }), p));
+                    }
+                }
+            }
+            let r_big = Fr::MODULUS;
+            for (name, p) in pts.iter() {
+                let res = std::panic::catch_unwind(|| {
+                    let on = p.is_on_curve();
+                    let sub = p.is_in_correct_subgroup_assuming_on_curve();
+                    let order = p.mul_bigint(r_big).is_zero() && !p.is_zero();
+                    let mut c = vec![];
+                    p.serialize_compressed(&mut c).unwrap();
+                    let mut u = vec![];
+                    p.serialize_uncompressed(&mut u).unwrap();
+                    let rc = Zorro::deserialize_compressed(&c[..]).map(|q| q == *p).unwrap_or(false);
+                    let ru = Zorro::deserialize_uncompressed(&u[..]).map(|q| q == *p).unwrap_or(false);
+                    let (x, y) = p.xy().map(|(x, y)| (*x, *y)).unwrap();
+                    let built = Zorro::new(x, y) == *p;
+                    let dbl = (p.into_group().double() - p.into_group()).into_affine() == *p;
+                    (on, sub, order, rc, ru, built, dbl)
+                });
+                let ok = matches!(res, Ok((true, true, true, true, true, true, true)));
+                println!("point {} checks(on_curve, subgroup, order_r, compressed, uncompressed, new, double) = {:?} {}", name, res.as_ref().ok(), if ok { "ok" } else { "WRONG" });
+                wrong |= !ok;
+            }
+            println!("points checked: {}", pts.len());
+            println!("REPLAY {}", if wrong { "REPRODUCED" } else { "NOT-REPRODUCED" });
+            std::process::exit(if wrong { 1 } else { 0 });
+        }
         Some("zorro-mul-by-a") => {
             // native evaluation of the specialised routine against multiplication by the declared coefficient
             use ark_bulletproofs::curve::zorro::{Fq, Parameters};
